@@ -16,7 +16,7 @@ lazy_static! {
 pub fn create(array: InstructionWithStr) -> Result<Instruction, Error> {
     let op = UnaryOperator::Sum;
     let return_type = array.return_type();
-    if return_type == Type::Never || !return_type.matches(&ACCEPTED_TYPE) {
+    if return_type.iter_element().is_none() || !return_type.matches(&ACCEPTED_TYPE) {
         return Err(Error::IncorectUnaryOperatorOperand {
             ins: array.str,
             op,
